@@ -15,6 +15,7 @@ FUNCS = [
     ('c10_tuple', 'value.tuple', 'tuple<u8, u64>', FULL),
     ('c10_option', 'value.option', 'option<u32>', FULL),
     ('c10_result', 'value.result', 'result<u32, u8>', FULL),
+    ('c10_result_one_payload', 'value.result_one_payload', 'result<u32> and result<_, u8> (one payload type only)', FULL),
     ('c10_flags_enum', 'value.flags_and_enum', 'flags, enum', FULL),
     ('c10_variant_numeric', 'value.variant_numeric_cases', 'variant with u32 / u64 / string cases, numeric cases', FULL),
     ('c10_f32_in_wide_variant_import', 'value.f32_in_wide_variant_import', 'variant { f32, u64, f64 } passed to and returned from an IMPORT (F32ToI64 / F64ToI64 bitcasts in the joined slot), every bit pattern', FULL.replace('export direction', 'import direction')),
@@ -61,12 +62,14 @@ def generate(rep, probe='cgen_val', world='valprobe', extra_args=(), sub=''):
     return d
 
 
-def check(rep, d, funcs, prefix, memory, defines=(), canary=True, G=None):
+def check(rep, d, funcs, prefix, memory, defines=(), canary=True, G=None, canary_id='canary.cbmc'):
     G = G or globals()['G']
     inc = [os.path.join(VERIF, 'kani/cgen_val/inc32')]
     flags = ['--32', '--unwind', '4', '--unwinding-assertions'] + ['-D' + x for x in defines] + (['--pointer-check', '--bounds-check', '--memory-leak-check'] if memory else [])
-    for fn, oid, what, bound in funcs:
-        r = cbmcrun.run_function(os.path.join(d, 'harness.c'), fn, inc, flags)
+    from concurrent.futures import ThreadPoolExecutor
+    with ThreadPoolExecutor(max_workers=8) as pool:   # one cbmc process per obligation, eight at a time; results are added in the listed order
+        results = list(pool.map(lambda f: cbmcrun.run_function(os.path.join(d, 'harness.c'), f[0], inc, flags), funcs))
+    for (fn, oid, what, bound), r in zip(funcs, results):
         ob = Obligation(oid, G + what, 'property', 'cbmc', seconds=r['seconds'], bounded=bound)
         rep.checker_cmds.append(r['cmd'])
         mine = [f for f in r['failed'] if (f.startswith(prefix) if not memory else not f.startswith('C10:'))]
@@ -90,10 +93,24 @@ def check(rep, d, funcs, prefix, memory, defines=(), canary=True, G=None):
     if not canary:
         return
     r = cbmcrun.run_function(os.path.join(d, 'harness.c'), 'canary_must_fail', inc, ['--32'] + ['-D' + x for x in defines])
-    rep.add(Obligation('canary.cbmc', 'false assertion must be refuted', 'vacuity', 'cbmc', status='discharged' if r['status'] == 'failed' else 'undecided', seconds=r['seconds']))
+    rep.add(Obligation(canary_id, 'false assertion must be refuted', 'vacuity', 'cbmc', status='discharged' if r['status'] == 'failed' else 'undecided', seconds=r['seconds']))
+
+
+# generator configurations of the property's quantifier; --autodrop-borrows only changes code for resources (C11's resource probe runs it)
+CONFIGS = [('', [], [], 'default options'),
+           ('-noflat', ['--no-sig-flattening'], ['NOFLAT'], '--no-sig-flattening'),
+           ('-utf16', ['--string-encoding', 'utf16'], ['UTF16'], '--string-encoding utf16')]
+
+
+def run_configs(rep, funcs, prefix, memory):
+    for i, (sub, args, defs, label) in enumerate(CONFIGS):
+        d = generate(rep, extra_args=args, sub=sub)
+        fs = [(f, oid + sub, what + ' [%s]' % label, b) for f, oid, what, b in funcs]
+        check(rep, d, fs, prefix, memory=memory, defines=defs, canary=(i == 0))
 
 
 def run(rep, tier):
     rep.assume(*ASSUME)
-    d = generate(rep)
-    check(rep, d, FUNCS, 'C10:', memory=False)
+    rep.assume('generator configurations: default, --no-sig-flattening (options / results as C structs in user-facing signatures) and --string-encoding utf16 '
+               '(16-bit code units; lengths count code units) - every obligation is run under each; --autodrop-borrows yes only affects resources (C11)')
+    run_configs(rep, FUNCS, 'C10:', False)
